@@ -16,7 +16,7 @@ from typing import Any, Callable, Mapping, Sequence, Union
 import onnx_ir as ir
 
 import onnxscript
-from onnxscript._internal import _inliner
+from onnxscript._internal import _inliner, _verif
 from onnxscript._internal.tape_builder import (
     BuilderBase,
     BuilderFeature,
@@ -283,6 +283,13 @@ def build_graph(
     sub_builder = GraphBuilder(subgraph, parent=parent)
     if parent is not None:
         sub_builder._scope_stack = list(parent._scope_stack)
+        if _verif.ENABLED:
+            _verif.emit(
+                _verif.builder_kind(sub_builder),
+                "Inherit",
+                b=_verif.tok(sub_builder, "b"),
+                stack=_verif.builder_stack(sub_builder),
+            )
     trace_outputs = trace_function(sub_builder.op, *trace_args)
     if not isinstance(trace_outputs, Sequence):
         trace_outputs = [trace_outputs]
@@ -306,6 +313,18 @@ def build_graph(
             returned_val.merge_shapes(declared_val.shape)
 
     subgraph.outputs.extend(trace_outputs)
+    if _verif.ENABLED:
+        _verif.emit(
+            _verif.builder_kind(sub_builder),
+            "EndGraph",
+            b=_verif.tok(sub_builder, "b"),
+            graph=_verif.tok(subgraph, "g"),
+            outputs=[_verif.tok(v, "v") for v in subgraph.outputs],
+            output_names=[str(v.name) for v in subgraph.outputs],
+            stack=_verif.builder_stack(sub_builder),
+        )
+        if parent is None:
+            _verif.end(_verif.builder_kind(sub_builder))
     return subgraph
 
 
@@ -385,6 +404,17 @@ def build_function(
         raise ValueError(
             "trace_function returned None and did not append any outputs to graph.outputs."
         )
+    if _verif.ENABLED:
+        _verif.emit(
+            _verif.builder_kind(gb),
+            "EndGraph",
+            b=_verif.tok(gb, "b"),
+            graph=_verif.tok(graph, "g"),
+            outputs=[_verif.tok(v, "v") for v in graph.outputs],
+            output_names=[str(v.name) for v in graph.outputs],
+            stack=_verif.builder_stack(gb),
+        )
+        _verif.end(_verif.builder_kind(gb))
 
     # Lift initializers → Constant nodes (required for ir.Function bodies).
     lift_initializers_to_constants(graph)
@@ -435,6 +465,24 @@ class GraphBuilder(BuilderBase):
         if parent is None:
             self._constant_cache: dict[tuple[Any, ir.DataType | None], ir.Value] = {}
             self._functions: dict[ir.OperatorIdentifier, ir.Function] = {}
+        if _verif.ENABLED:
+            fields = dict(
+                b=_verif.tok(self, "b"),
+                graph=_verif.tok(graph, "g"),
+                inputs=[_verif.tok(v, "v") for v in graph.inputs],
+                input_names=[str(v.name) for v in graph.inputs],
+                inits=[[str(k), _verif.tok(v, "v")] for k, v in graph.initializers.items()],
+                nodes=[
+                    [_verif.tok(n, "n"), str(n.name), [_verif.tok(v, "v") for v in n.outputs]]
+                    for n in graph
+                ],
+            )
+            if parent is None:
+                _verif.begin(_verif.builder_kind(self), **fields)
+            else:
+                _verif.emit(
+                    _verif.builder_kind(self), "Child", parent=_verif.tok(parent, "b"), **fields
+                )
 
     def opset(self, domain: str, version: int = 1) -> OpBuilder:
         """Create an OpBuilder bound to the given domain and version."""
@@ -469,6 +517,32 @@ class GraphBuilder(BuilderBase):
     def _add_node(self, node: ir.Node) -> None:
         """Append a node to the graph."""
         self.graph.append(node)
+        if _verif.ENABLED:
+            subs = []
+            for attr in node.attributes.values():
+                if getattr(getattr(attr, "type", None), "name", "") == "GRAPH" and attr.value is not None:
+                    subs.append(_verif.tok(attr.value, "g"))
+                elif getattr(getattr(attr, "type", None), "name", "") == "GRAPHS" and attr.value is not None:
+                    subs.extend(_verif.tok(g, "g") for g in attr.value)
+            _verif.emit(
+                _verif.builder_kind(self),
+                "Node",
+                b=_verif.tok(self, "b"),
+                graph=_verif.tok(self.graph, "g"),
+                id=_verif.tok(node, "n"),
+                op=node.op_type,
+                domain=node.domain,
+                name=str(node.name),
+                ins=[_verif.tok(v, "v") for v in node.inputs],
+                outs=[_verif.tok(v, "v") for v in node.outputs],
+                out_names=[str(v.name) for v in node.outputs],
+                annotated="pkg.onnxscript.name_scopes" in node.metadata_props,
+                name_scopes=node.metadata_props.get("pkg.onnxscript.name_scopes", ""),
+                class_hierarchy=node.metadata_props.get("pkg.onnxscript.class_hierarchy", ""),
+                namespace=node.metadata_props.get("namespace", ""),
+                count=self.graph.num_nodes(),
+                subs=subs,
+            )
 
     def _add_initializer(self, value: ir.Value) -> None:
         """Register an initializer in the root graph."""
@@ -547,13 +621,29 @@ class GraphBuilder(BuilderBase):
         """
         if name is None:
             name = tensor.name
+        if _verif.ENABLED:
+            _requested = name
         if qualify:
             name = self._qualify_initializer_name(name)
         shape = ir.Shape(tensor.shape)
         value = ir.Value(
             name=name, shape=shape, type=ir.TensorType(tensor.dtype), const_value=tensor
         )
+        if _verif.ENABLED:
+            _existed = name in self._root._graph.initializers
         self._root._graph.register_initializer(value)
+        if _verif.ENABLED:
+            _verif.emit(
+                _verif.builder_kind(self),
+                "Init",
+                b=_verif.tok(self, "b"),
+                requested=str(_requested),
+                name=str(name),
+                qualify=bool(qualify),
+                value=_verif.tok(value, "v"),
+                existed=_existed,
+                graph=_verif.tok(self._root._graph, "g"),
+            )
         return value
 
     def input(
@@ -591,6 +681,16 @@ class GraphBuilder(BuilderBase):
         self._graph.inputs.append(value)
         if const_value is not None:
             self._graph.register_initializer(value)
+        if _verif.ENABLED:
+            _verif.emit(
+                _verif.builder_kind(self),
+                "Input",
+                b=_verif.tok(self, "b"),
+                graph=_verif.tok(self._graph, "g"),
+                value=_verif.tok(value, "v"),
+                name=str(name),
+                default=const_value is not None,
+            )
         return value
 
     def add_output(self, value: ir.Value, name: str | None) -> None:
@@ -603,6 +703,15 @@ class GraphBuilder(BuilderBase):
         if name:
             value.name = name
         self._graph.outputs.append(value)
+        if _verif.ENABLED:
+            _verif.emit(
+                _verif.builder_kind(self),
+                "Output",
+                b=_verif.tok(self, "b"),
+                graph=_verif.tok(self._graph, "g"),
+                value=_verif.tok(value, "v"),
+                name=str(value.name),
+            )
 
     def _get_or_create_constant(
         self, value: VALUE_LIKE, dtype: ir.DataType | None
@@ -622,12 +731,36 @@ class GraphBuilder(BuilderBase):
                 dtype = _PYTHON_TYPE_TO_DTYPE.get(type(value))
             cache_key = (_constant_key(value), dtype)
             if cache_key in root._constant_cache:
+                if _verif.ENABLED:
+                    _verif.emit(
+                        _verif.builder_kind(self),
+                        "Const",
+                        b=_verif.tok(self, "b"),
+                        key=repr(cache_key),
+                        literal=[type(value).__name__, repr(value), str(dtype)],
+                        hit=True,
+                        value=_verif.tok(root._constant_cache[cache_key], "v"),
+                        name=str(root._constant_cache[cache_key].name),
+                        size=len(root._constant_cache),
+                    )
                 return root._constant_cache[cache_key]
             type_suffix = _dtype_suffix(dtype) if dtype is not None else ""
             name = _constant_name(value, type_suffix, len(root._constant_cache))
             tensor = ir.tensor(value, dtype=dtype, name=name)
             ir_value = root.initializer(tensor, name=name, qualify=False)
             root._constant_cache[cache_key] = ir_value
+            if _verif.ENABLED:
+                _verif.emit(
+                    _verif.builder_kind(self),
+                    "Const",
+                    b=_verif.tok(self, "b"),
+                    key=repr(cache_key),
+                    literal=[type(value).__name__, repr(value), str(dtype)],
+                    hit=False,
+                    value=_verif.tok(ir_value, "v"),
+                    name=str(name),
+                    size=len(root._constant_cache),
+                )
             return ir_value
         if (
             isinstance(value, (list, tuple))
@@ -639,12 +772,44 @@ class GraphBuilder(BuilderBase):
                 dtype = _PYTHON_TYPE_TO_DTYPE.get(type(value[0]))
             cache_key = (tuple(_constant_key(v) for v in value), dtype)
             if cache_key in root._constant_cache:
+                if _verif.ENABLED:
+                    _verif.emit(
+                        _verif.builder_kind(self),
+                        "Const",
+                        b=_verif.tok(self, "b"),
+                        key=repr(cache_key),
+                        literal=[
+                            type(value).__name__ + ":" + type(value[0]).__name__,
+                            repr(list(value)),
+                            str(dtype),
+                        ],
+                        hit=True,
+                        value=_verif.tok(root._constant_cache[cache_key], "v"),
+                        name=str(root._constant_cache[cache_key].name),
+                        size=len(root._constant_cache),
+                    )
                 return root._constant_cache[cache_key]
             type_suffix = _dtype_suffix(dtype) if dtype is not None else ""
             name = _constant_name(value, type_suffix, len(root._constant_cache))
             tensor = ir.tensor(list(value), dtype=dtype, name=name)
             ir_value = root.initializer(tensor, name=name, qualify=False)
             root._constant_cache[cache_key] = ir_value
+            if _verif.ENABLED:
+                _verif.emit(
+                    _verif.builder_kind(self),
+                    "Const",
+                    b=_verif.tok(self, "b"),
+                    key=repr(cache_key),
+                    literal=[
+                        type(value).__name__ + ":" + type(value[0]).__name__,
+                        repr(list(value)),
+                        str(dtype),
+                    ],
+                    hit=False,
+                    value=_verif.tok(ir_value, "v"),
+                    name=str(name),
+                    size=len(root._constant_cache),
+                )
             return ir_value
         # For other types (TensorProtocol, numpy arrays, torch tensors, etc.),
         # ir.tensor() handles the conversion.
@@ -814,6 +979,16 @@ class GraphBuilder(BuilderBase):
                 if output_val is not None and output_val.name:
                     output_val.name = self._qualify_value_name(output_val.name)
 
+        if _verif.ENABLED:
+            _verif.emit(
+                _verif.builder_kind(self),
+                "InlineEnd",
+                b=_verif.tok(self, "b"),
+                function=str(function.name),
+                outputs=[_verif.tok(v, "v") for v in outputs],
+                output_names=[str(v.name) if v is not None else "" for v in outputs],
+                nodes=[_verif.tok(n, "n") for n in nodes],
+            )
         if _prefix:
             self.pop_module()
         if len(outputs) == 0:
@@ -828,12 +1003,22 @@ class GraphBuilder(BuilderBase):
             class_name: The qualified class name (e.g. ``"Gemma3DecoderLayer"``).
         """
         self._scope_stack.append((module, class_name))
+        if _verif.ENABLED:
+            _verif.emit(
+                _verif.builder_kind(self),
+                "Push",
+                b=_verif.tok(self, "b"),
+                name=str(module),
+                cls=str(class_name),
+            )
 
     def pop_module(self) -> None:
         """Pop the most recent module scope off the stack."""
         if not self._scope_stack:
             raise RuntimeError("Cannot pop_module: no module context has been pushed.")
         self._scope_stack.pop()
+        if _verif.ENABLED:
+            _verif.emit(_verif.builder_kind(self), "Pop", b=_verif.tok(self, "b"))
 
     def _scope_names(self) -> list[str]:
         """Return the list of module attribute names in the current scope."""
